@@ -144,6 +144,19 @@ static string execCase(const Case& c) {
     Reply r = tcp(W, c.text, &user, &mode);
     return string(getResultCode(r.ret)) + " / " + r.text;
   }
+  if (c.kind == "seq") {  // several command lines (separated by a line feed) of one client, one after the other
+    RequestMode mode;
+    mode.listenMode = lm_none; mode.format = OF_NONE; mode.listenWithUnknown = false; mode.listenOnlyUnknown = false;
+    string all, line;
+    std::istringstream ls(c.text);
+    while (std::getline(ls, line)) {
+      if (line.empty()) continue;
+      Reply r = tcp(W, line, &user, &mode);
+      all += string(getResultCode(r.ret)) + " / " + r.text.substr(0, 80) + " | ";
+      W->busHandler->notifyProtocolStatus(ps_empty, RESULT_OK);  // the bus is idle in between: poll pass
+    }
+    return all;
+  }
   if (c.kind == "httpraw") {  // the text is the complete byte stream of the request (any request line shape)
     string u;
     Reply r = runRequest(W, true, c.text, &u);
@@ -495,6 +508,34 @@ int main(int argc, char** argv) {
     });
     flushBatch();
     R.sample("tcp: e.g. <read -h 08b5090>, <answer -m>, <hex -s 99999999999999999999 fe>, <define \"\" -> every line of <=" + std::to_string(tcpLen) + " tokens from " + std::to_string(N_TCP) + " tokens");
+  }
+  if (only.empty() || only == "seq") {
+    // histories of commands that change the daemon's state (definitions added, replaced under another key, removed
+    // again; telegrams injected; scans; cache reads) - every sequence of up to 3 (thorough 4) of them on one world
+    static const char* SEQ[] = {
+      "define r,bai,ident,,,08,0704,,mf,,UCH",            // the key of the scan message of slave 08
+      "define -r r,bai,ident,,,08,0704,01,mf,,UCH",       // the same name under another key
+      "define -r r,bai,ident,,,08,0704,,mf,,UCH",
+      "define -r r,bai,other,,,08,b509,0d09,value,,UCH",  // (the messages the probe reads are left alone: a changed
+                                                          //  definition legitimately changes their answers)
+      "inject 1008070400/0ab5454255010203040506",         // identification answer of slave 08
+      "inject 10feb5160100",
+      "inject 1008b509020d07/0401020304",
+      "scan 08", "scan result", "info",
+      "read -f -c bai ident", "read -c main temp", "read -def r,tmp,x,,,08,b509,0d0a,v,,UCH",
+      "find -a -V", "reload",
+    };
+    size_t nseq = sizeof(SEQ) / sizeof(SEQ[0]);
+    size_t seqLen = A.getInt("seqlen", th ? 4 : 3);
+    forSequences(nseq, seqLen, [&](const vector<size_t>& sq) {
+      if (sq.size() < 2) return;  // single lines are the subject of the token enumeration above
+      string text;
+      for (size_t i : sq) text += string(SEQ[i]) + "\n";
+      Case c{"seq", text};
+      runOne(c, "tcp-sequence", string(firstWord(SEQ[sq[0]])) + "-first");
+    });
+    flushBatch();
+    R.sample("command histories: every sequence of 2.." + std::to_string(seqLen) + " of " + std::to_string(nseq) + " state-changing commands on one daemon, e.g. <define r,bai,ident..>, <define -r ..another key>, <inject ident telegram>");
   }
   if (only.empty() || only == "http") {
     forSequences(N_HTTP, httpLen, [&](const vector<size_t>& s) {
